@@ -287,6 +287,73 @@ def _case(ctx, index, G, uni, table):
     return {'index': index, 'materials': mats, 'order': order, 'wavelengths': wargs}
 
 
+RECURRING = [1.798, 4.75, 5.0, 6.0, 0.5, 12.0]
+SCALARS = ['2', '3', '50', '0.5', '1000', '0.001', '2.5', '7', '1', '12']
+HISTORY_OPS = ('mul', 'add', 'iadd', 'iadd_copy', 'formula', 'ref', 'rename', 'redensity', 'change_table')
+
+
+def _history_case(ctx, index, G, uni, table):
+    """Material OBJECTS that live through several calculators of one process: built once, used in a calculator,
+    then scaled / added / extended in place / copied, and used again at the same wavelength."""
+    rng = ctx.rng
+    nb = rng.choice([2, 2, 3, 3, 4])
+    mats = [_material(rng, G, uni, table) for _ in range(nb)]
+    if rng.random() < 0.35:
+        k = uni.edep[index % len(uni.edep)]
+        mats[rng.randrange(nb)] = _material(rng, G, uni, table, items=[(k, G.draw_count(rng))]
+                                            + G.draw_multiset(rng, uni, 1, 2))
+    wargs = []
+    for _ in range(2):                       # every stage uses one of two wavelength arguments, so both recur
+        kind = rng.choice(['float', 'float', 'np.float64', 'list', 'array', 'array', 'default'])
+        n = 1 if kind in ('float', 'np.float64', 'default') else rng.choice([1, 2, 3, 5])
+        vals = [rng.choice(RECURRING) if rng.random() < 0.7 else _wl_value(rng) for _ in range(n)]
+        wargs.append({'kind': kind, 'values': [] if kind == 'default' else vals})
+    pool = nb
+    first = list(range(nb))
+    rng.shuffle(first)
+    stages = [{'entries': [['ref', i] for i in first]}]
+    for _ in range(rng.choice([2, 3, 3, 4])):
+        entries = []
+        for _e in range(rng.randint(2, 4)):
+            op = rng.choice(['mul', 'mul', 'mul', 'add', 'iadd', 'iadd', 'iadd_copy', 'formula', 'ref', 'ref',
+                             'rename', 'redensity', 'change_table'])
+            i = rng.randrange(pool)
+            if op == 'mul':
+                entries.append([op, rng.choice(SCALARS), i])
+                pool += 1
+            elif op in ('add', 'iadd_copy'):
+                entries.append([op, i, rng.randrange(pool)])
+                pool += 1
+            elif op == 'iadd':
+                entries.append([op, i, rng.randrange(pool)])
+            elif op == 'formula':
+                entries.append([op, i])
+                pool += 1
+            elif op == 'rename':
+                entries.append([op, i, rng.choice(['solvent', 'sample', 'buffer', 'layer A', ''])])
+            elif op == 'redensity':
+                entries.append([op, i, round(_log_uniform(rng, 0.1, 20), 4)])
+            else:
+                entries.append([op, i])
+        stages.append({'entries': entries})
+    for st in stages:
+        ne = len(st['entries'])
+        wts = _weights(rng, ne, rng.choice(['ones', 'spread', 'mixed', 'mixed']))
+        if sum(wts) == 0:
+            wts[rng.randrange(ne)] = 1.0
+        if rng.random() < 0.15:
+            f = _extreme_factor(rng)
+            wts = [x * f for x in wts]
+        st['weights'] = wts
+        st['density'] = _log_uniform(rng, 1e-3, 25.0)
+        st['wl'] = 0 if rng.random() < 0.7 else 1
+        w = wargs[st['wl']]
+        if w['kind'] == 'array' and rng.random() < 0.15:
+            # the caller overwrites his wavelength array in place before building the next calculator
+            st['wl_set'] = [rng.choice(RECURRING) for _ in w['values']]
+    return {'index': index, 'materials': mats, 'wavelengths': wargs, 'stages': stages}
+
+
 def generate(ctx):
     import periodictable as pt
     from ..gen import compounds as G
@@ -295,6 +362,9 @@ def generate(ctx):
     for j in range(n):
         index = j * ctx.nshards + ctx.shard
         yield 'composite', _case(ctx, index, G, uni, pt.elements)
+    for j in range(ctx.scale(150, 500)):
+        index = j * ctx.nshards + ctx.shard
+        yield 'history', _history_case(ctx, index, G, uni, pt.elements)
 
 
 # --------------------------------------------------------------------------
@@ -565,7 +635,210 @@ def _compare(ctx, violation, what, g, x, case, app, wl, rho):
     return False
 
 
-CHECKS = {'composite': check_composite}
+# --------------------------------------------------------------------------
+# material objects reused across calculators, with Formula arithmetic in between
+# --------------------------------------------------------------------------
+def _entry_text(e):
+    op = e[0]
+    if op == 'mul':
+        return '%s*m%d' % (e[1], e[2])
+    if op == 'add':
+        return 'm%d+m%d' % (e[1], e[2])
+    if op == 'iadd':
+        return '(m%d+=m%d)' % (e[1], e[2])
+    if op == 'iadd_copy':
+        return '(copy(m%d)+=m%d)' % (e[1], e[2])
+    if op == 'formula':
+        return 'formula(m%d)' % e[1]
+    if op == 'ref':
+        return 'm%d' % e[1]
+    if op == 'rename':
+        return '(m%d.name=%r)' % (e[1], e[2])
+    if op == 'redensity':
+        return '(m%d.density=%r)' % (e[1], e[2])
+    return 'm%d.change_table(elements)' % e[1]
+
+
+def _apply_entry(e, objs, models, inplace):
+    """Evaluate one derivation on the pool of live objects (and on the pool of model multisets); returns the
+    pool index of the material it denotes.  *inplace* collects the indices whose composition changed in place."""
+    import copy as copymod
+    from fractions import Fraction
+    import periodictable as pt
+    op = e[0]
+    if op == 'mul':
+        f = Fraction(e[1])
+        n = int(f) if f.denominator == 1 else float(e[1])
+        objs.append(n * objs[e[2]])
+        models.append({k: c * f for k, c in models[e[2]].items()})
+        return len(objs) - 1
+    if op in ('add', 'iadd', 'iadd_copy'):
+        i, j = e[1], e[2]
+        merged = dict(models[i])
+        for k, c in models[j].items():
+            merged[k] = merged.get(k, 0) + c
+        if op == 'add':
+            objs.append(objs[i] + objs[j])
+        elif op == 'iadd_copy':
+            c = copymod.copy(objs[i])
+            c += objs[j]
+            objs.append(c)
+        else:
+            objs[i] += objs[j]
+            models[i] = merged
+            inplace.add(i)
+            return i
+        models.append(merged)
+        return len(objs) - 1
+    if op == 'formula':
+        objs.append(pt.formula(objs[e[1]]))
+        models.append(dict(models[e[1]]))
+        return len(objs) - 1
+    if op == 'rename':
+        objs[e[1]].name = e[2] or None
+    elif op == 'redensity':
+        objs[e[1]].density = e[2]
+    elif op == 'change_table':
+        objs[e[1]].change_table(pt.elements)
+    return e[1]
+
+
+def _model_sum(models, idx, weights):
+    uni = _state['uni']
+    d = {}
+    for i, w in zip(idx, weights):
+        for k, c in models[i].items():
+            a = uni.atom(k)
+            d[a] = d.get(a, 0.0) + float(w) * float(c)
+    return d
+
+
+def check_history(ctx, case):
+    import numpy as np
+    import periodictable as pt
+    from periodictable import nsf
+    from ..gen import compounds as G
+    objs = [_build_material(m) for m in case['materials']]
+    models = [G.total(G.items_from_text(m['atoms'])) for m in case['materials']]
+    wls = [_wl_arg(w) for w in case['wavelengths']]          # the same argument objects go to every calculator
+    wl_want = [None if w is None else np.array(w, copy=True) for w in wls]
+    ctx.count('history.cases')
+    calcs = []
+    sig = [tuple(tuple(sorted(m)) for m in models), tuple((w['kind'], len(w['values'])) for w in case['wavelengths'])]
+
+    for s, st in enumerate(case['stages']):
+        inplace = set()
+        expr = ', '.join(_entry_text(e) for e in st['entries'])
+        extra = {'stage': s, 'ops': sorted({e[0] for e in st['entries']}), 'expr': expr}
+
+        def violation(msg, **detail):
+            detail.update(extra)
+            ctx.violation(msg, **detail)
+
+        idx = [_apply_entry(e, objs, models, inplace) for e in st['entries']]
+        for e in st['entries']:
+            ctx.count('history.op.' + e[0])
+            if s and e[0] in ('mul', 'add', 'iadd', 'iadd_copy', 'formula'):
+                ctx.count('history.derived_from_used_object')
+        for c in calcs:                      # what an older calculator owes for a material changed in place is not stated
+            if inplace & c['used']:
+                c['ambiguous'] = True
+        k = st['wl']
+        wl = wls[k]
+        if 'wl_set' in st:
+            wl[...] = st['wl_set']
+            wl_want[k] = np.array(st['wl_set'], dtype=float)
+            ctx.count('history.wavelength_array_overwritten')
+        shape = np.shape(wl) if wl is not None else ()
+        kw = {} if wl is None else {'wavelength': wl}
+        wts = np.array(st['weights'], dtype=float)
+        rho = st['density']
+        what = ('history stage %d [%s] wavelength=%r weights=%r density=%r'
+                % (s, expr, None if wl is None else np.asarray(wl).tolist(), st['weights'], rho))
+        sig.append((tuple(e[0] for e in st['entries']), k, tuple(x == 0 for x in st['weights'])))
+        mats = [objs[i] for i in idx]
+        try:
+            calc = nsf.neutron_composite_sld(mats, **kw)
+            got = calc(wts, density=rho)
+        except ContractBreach as exc:
+            violation('%s: postcondition failed in the calculator: %s' % (what, _breach_text(exc)),
+                      symptom='contract', route='composite')
+            continue
+        ctx.count('history.stages')
+        ctx.count('calculators')
+        ctx.count('applications')
+        _count_extremes(ctx, st['weights'], rho)
+        # oracle: the direct route on the weighted sum of the MODEL multisets (never on the live objects)
+        try:
+            want = nsf.neutron_sld(_model_sum(models, idx, st['weights']), density=rho, **kw)
+        except ContractBreach as exc:
+            violation('%s: postcondition failed in the direct route: %s' % (what, _breach_text(exc)),
+                      symptom='contract', route='direct')
+            continue
+        got = _as3(violation, what + ' [composite]', got)
+        want = _as3(violation, what + ' [direct]', want)
+        if got is None or want is None:
+            continue
+        ctx.evaluated(what='shape')
+        shapes = [np.shape(x) for x in got]
+        if any(sh != shape for sh in shapes):
+            violation('%s: calculator output shapes %r, wavelength argument has shape %r' % (what, shapes, shape),
+                      symptom='shape', route='composite')
+            continue
+        g = np.array([np.asarray(x, dtype=float).reshape(-1) for x in got])
+        try:
+            x = np.array([np.broadcast_to(np.asarray(v, dtype=float).reshape(-1), g.shape[1:]) for v in want])
+        except ValueError:
+            violation('%s: direct route output shapes %r cannot be compared with wavelength shape %r'
+                      % (what, [np.shape(v) for v in want], shape), symptom='shape', route='direct')
+            continue
+        ok = _compare(ctx, violation, what, g, x, None, {'oracle': 'model multisets'}, wl, rho)
+        if ok:
+            # the property's own wording: sum_i w_i*material_i by Formula arithmetic on the live objects
+            tot = pt.formula()
+            for wi, m in zip(st['weights'], mats):
+                tot = tot + float(wi) * m
+            try:
+                lit = nsf.neutron_sld(tot, density=rho, **kw)
+                y = np.array([np.broadcast_to(np.asarray(v, dtype=float).reshape(-1), g.shape[1:]) for v in lit])
+            except ContractBreach as exc:
+                violation('%s: postcondition failed in the direct route: %s' % (what, _breach_text(exc)),
+                          symptom='contract', route='direct')
+                continue
+            except (ValueError, TypeError):
+                violation('%s: direct route on the Formula sum returns %r' % (what, lit), symptom='shape', route='direct')
+                continue
+            ok = _compare(ctx, violation, what + ' [Formula sum of the live objects]', g, y, None,
+                          {'oracle': 'formula arithmetic', 'model_values': x[:, 0].tolist()}, wl, rho)
+        calcs.append({'calc': calc, 'wts': wts, 'rho': rho, 'first': g if ok else None, 'used': set(idx),
+                      'ambiguous': False, 'what': what, 'k': k, 'wl_at_build': None if wl is None else np.array(wl, copy=True)})
+
+    # interleaving: every calculator built earlier still answers as it did (calculators do not share state)
+    for c in calcs:
+        if c['first'] is None or c['ambiguous']:
+            continue
+        if c['wl_at_build'] is not None and not np.array_equal(c['wl_at_build'], np.asarray(wls[c['k']])):
+            continue                          # the caller overwrote the wavelength array since: not stated either
+        ctx.evaluated(what='reapplication')
+        ctx.count('history.reapplied_after_later_calculators')
+        try:
+            again = c['calc'](c['wts'], density=c['rho'])
+            g = np.array([np.asarray(x, dtype=float).reshape(-1) for x in again])
+        except ContractBreach as exc:
+            ctx.violation('%s: postcondition failed when the calculator is applied again: %s' % (c['what'], _breach_text(exc)),
+                          symptom='contract', route='composite')
+            continue
+        if g.shape != c['first'].shape or not np.array_equal(c['first'], g, equal_nan=True):
+            ctx.violation('%s: the calculator gives a different result after other calculators were built: %r then %r'
+                          % (c['what'], c['first'].tolist(), g.tolist()), symptom='stateful', route='composite')
+    for k, wl in enumerate(wls):
+        if wl is not None and not np.array_equal(wl_want[k], np.asarray(wl)):
+            ctx.violation('history: the wavelength argument %r was modified (now %r)'
+                          % (wl_want[k].tolist(), np.asarray(wl).tolist()), symptom='mutated-argument')
+    ctx.distinct_case(tuple(sig))
+
+
+CHECKS = {'composite': check_composite, 'history': check_history}
 
 
 def finish(ctx):
@@ -599,6 +872,14 @@ def finish(ctx):
     for Z, A, _ in uni.edep:
         ctx.require('seen.edep.%d-%d' % (Z, A), 1, 'energy-dependent entry never used')
     ctx.require('lists', 3000 if not ctx.thorough() else 40000, 'fewer material lists than the floor of the tier')
+    ctx.require('extreme.all_weights_below_1e-8', 20, 'no weight vector of tiny absolute amounts')
+    ctx.require('extreme.weights_above_1e9', 20, 'no weight vector of huge absolute amounts')
+    ctx.require('extreme.density_below_1e-8', 20, 'no tiny non-zero density')
+    ctx.require('history.stages', 1000, 'too few calculators built from reused material objects')
+    ctx.require('history.derived_from_used_object', 500, 'too few materials derived from objects already used in a calculator')
+    for op in HISTORY_OPS:
+        ctx.require('history.op.' + op, 20, 'derivation %s never exercised on a reused material object' % op)
+    ctx.require('history.reapplied_after_later_calculators', 100, 'no calculator applied again after later ones were built')
 
 
 def classify(rec):
